@@ -1,4 +1,4 @@
-/- Helper lemmas about `popAux` / `popResponders` and `handle` (used by C05, C01). -/
+/- Helper lemmas about `popAux` / `popResponders` and `handle` (used by C05, C01, C02). -/
 import GluonModel.Model.Responder
 
 namespace Gluon
@@ -7,117 +7,343 @@ namespace Gluon
 @[simp] theorem Responder.isExpunge_expunge (id) : (Responder.expunge id).isExpunge = true := rfl
 @[simp] theorem Responder.isExpunge_fetch (id fl op a b c) : (Responder.fetch id fl op a b c).isExpunge = false := rfl
 
-/-- the `skipIDs` set after `popAux` has walked over `l` -/
-def skipAfter (skip : List MsgId) : List Responder → List MsgId
-  | [] => skip
-  | .expunge id :: rs => skipAfter (if skip.contains id then skip else id :: skip) rs
-  | .exists id .. :: rs => if skip.contains id then skipAfter (skip.filter (· != id)) rs else skipAfter skip rs
-  | .fetch .. :: rs => skipAfter skip rs
+@[simp] theorem Responder.unsilent_exists (id uid fl t o) :
+    (Responder.exists id uid fl t o).unsilent = .exists id uid fl t o := rfl
+@[simp] theorem Responder.unsilent_expunge (id) : (Responder.expunge id).unsilent = .expunge id := rfl
+@[simp] theorem Responder.unsilent_fetch (id fl op a b c) :
+    (Responder.fetch id fl op a b c).unsilent = .fetch id fl op a false c := rfl
 
-theorem popAux_append (skip : List MsgId) (l1 l2 : List Responder) :
-    popAux skip (l1 ++ l2) =
-      ((popAux skip l1).1 ++ (popAux (skipAfter skip l1) l2).1,
-       (popAux skip l1).2 ++ (popAux (skipAfter skip l1) l2).2) := by
-  induction l1 generalizing skip with
-  | nil => simp [popAux, skipAfter]
+@[simp] theorem Responder.unsilent_unsilent (r : Responder) : r.unsilent.unsilent = r.unsilent := by
+  cases r <;> rfl
+@[simp] theorem Responder.isExpunge_unsilent (r : Responder) : r.unsilent.isExpunge = r.isExpunge := by
+  cases r <;> rfl
+@[simp] theorem Responder.isExists_unsilent (r : Responder) : r.unsilent.isExists = r.isExists := by
+  cases r <;> rfl
+@[simp] theorem Responder.msgId_unsilent (r : Responder) : r.unsilent.msgId = r.msgId := by
+  cases r <;> rfl
+@[simp] theorem Responder.isSilent_unsilent (r : Responder) : r.unsilent.isSilent = false := by
+  cases r <;> rfl
+
+theorem Responder.unsilent_of_isExists {r : Responder} (h : r.isExists = true) : r.unsilent = r := by
+  cases r <;> simp_all [Responder.isExists]
+
+/-- the `heldExpunge` set after `popAux` has walked over `l` -/
+def hexpAfter (hexp : List MsgId) : List Responder → List MsgId
+  | [] => hexp
+  | .expunge id :: rs => hexpAfter (id :: hexp) rs
+  | _ :: rs => hexpAfter hexp rs
+
+/-- the `heldExists` set after `popAux` has walked over `l` -/
+def hexAfter (hexp hex : List MsgId) : List Responder → List MsgId
+  | [] => hex
+  | .expunge id :: rs => hexAfter (id :: hexp) hex rs
+  | .exists id .. :: rs =>
+    if holdsExists hexp hex id then hexAfter hexp (id :: hex) rs else hexAfter hexp hex rs
+  | .fetch .. :: rs => hexAfter hexp hex rs
+
+/-! one-step equations of `popAux` / `hexAfter` -/
+
+theorem popAux_expunge (hexp hex : List MsgId) (id : MsgId) (rs : List Responder) :
+    popAux hexp hex (.expunge id :: rs) =
+      ((popAux (id :: hexp) hex rs).1, .expunge id :: (popAux (id :: hexp) hex rs).2) := by
+  simp [popAux]
+
+theorem popAux_exists_held {hexp hex : List MsgId} {id : MsgId} (h : holdsExists hexp hex id = true)
+    (uid : UID) (fl : Flags) (t : StateId) (o : Option StateId) (rs : List Responder) :
+    popAux hexp hex (.exists id uid fl t o :: rs) =
+      ((popAux hexp (id :: hex) rs).1, .exists id uid fl t o :: (popAux hexp (id :: hex) rs).2) := by
+  simp only [popAux, h, if_true]
+
+theorem popAux_exists_popped {hexp hex : List MsgId} {id : MsgId} (h : holdsExists hexp hex id = false)
+    (uid : UID) (fl : Flags) (t : StateId) (o : Option StateId) (rs : List Responder) :
+    popAux hexp hex (.exists id uid fl t o :: rs) =
+      (.exists id uid fl t o :: (popAux hexp hex rs).1, (popAux hexp hex rs).2) := by
+  simp only [popAux, h, Bool.false_eq_true, if_false]
+
+theorem popAux_fetch_held {hexp hex : List MsgId} {id : MsgId} (h : id ∈ hex)
+    (fl : Flags) (op : FlagOp) (a b c : Bool) (rs : List Responder) :
+    popAux hexp hex (.fetch id fl op a b c :: rs) =
+      ((popAux hexp hex rs).1, .fetch id fl op a false c :: (popAux hexp hex rs).2) := by
+  have : hex.contains id = true := by simpa using h
+  simp only [popAux, this, if_true, Responder.unsilent]
+
+theorem popAux_fetch_popped {hexp hex : List MsgId} {id : MsgId} (h : id ∉ hex)
+    (fl : Flags) (op : FlagOp) (a b c : Bool) (rs : List Responder) :
+    popAux hexp hex (.fetch id fl op a b c :: rs) =
+      (.fetch id fl op a b c :: (popAux hexp hex rs).1, (popAux hexp hex rs).2) := by
+  have : hex.contains id = false := by simpa using h
+  simp only [popAux, this, Bool.false_eq_true, if_false]
+
+theorem hexAfter_exists_held {hexp hex : List MsgId} {id : MsgId} (h : holdsExists hexp hex id = true)
+    (uid : UID) (fl : Flags) (t : StateId) (o : Option StateId) (rs : List Responder) :
+    hexAfter hexp hex (.exists id uid fl t o :: rs) = hexAfter hexp (id :: hex) rs := by
+  simp only [hexAfter, h, if_true]
+
+theorem hexAfter_exists_popped {hexp hex : List MsgId} {id : MsgId} (h : holdsExists hexp hex id = false)
+    (uid : UID) (fl : Flags) (t : StateId) (o : Option StateId) (rs : List Responder) :
+    hexAfter hexp hex (.exists id uid fl t o :: rs) = hexAfter hexp hex rs := by
+  simp only [hexAfter, h, Bool.false_eq_true, if_false]
+
+theorem holdsExists_of_ne_nil {hexp hex : List MsgId} (hne : hex ≠ []) (id : MsgId) :
+    holdsExists hexp hex id = true := by
+  cases hex with
+  | nil => exact absurd rfl hne
+  | cons a t => simp [holdsExists]
+
+theorem holdsExists_of_mem {hexp hex : List MsgId} {id : MsgId} (h : id ∈ hexp) :
+    holdsExists hexp hex id = true := by
+  simp [holdsExists, h]
+
+theorem holdsExists_false_iff {hexp hex : List MsgId} {id : MsgId} :
+    holdsExists hexp hex id = false ↔ hex = [] ∧ id ∉ hexp := by
+  cases hex <;> simp [holdsExists]
+
+theorem popAux_append (hexp hex : List MsgId) (l1 l2 : List Responder) :
+    popAux hexp hex (l1 ++ l2) =
+      ((popAux hexp hex l1).1 ++ (popAux (hexpAfter hexp l1) (hexAfter hexp hex l1) l2).1,
+       (popAux hexp hex l1).2 ++ (popAux (hexpAfter hexp l1) (hexAfter hexp hex l1) l2).2) := by
+  induction l1 generalizing hexp hex with
+  | nil => simp [popAux, hexpAfter, hexAfter]
   | cons r rs ih =>
     cases r with
     | «exists» id uid fl t o =>
-      by_cases h : id ∈ skip
-      · simp [popAux, skipAfter, h, ih]
-      · simp [popAux, skipAfter, h, ih]
-    | expunge id => simp [popAux, skipAfter, ih]
-    | fetch id fl op a b c => simp [popAux, skipAfter, ih]
-
-theorem popAux_fst_no_expunge (skip : List MsgId) (l : List Responder) :
-    ∀ r ∈ (popAux skip l).1, r.isExpunge = false := by
-  induction l generalizing skip with
-  | nil => simp [popAux]
-  | cons r rs ih =>
-    cases r with
-    | «exists» id uid fl t o =>
-      by_cases h : id ∈ skip
-      · simpa [popAux, h] using ih _
-      · intro x hx
-        simp [popAux, h] at hx
-        rcases hx with rfl | hx
-        · rfl
-        · exact ih _ x hx
-    | expunge id => simpa [popAux] using ih _
+      cases h : holdsExists hexp hex id
+      · rw [List.cons_append, popAux_exists_popped h, popAux_exists_popped h, hexAfter_exists_popped h, ih]
+        simp [hexpAfter]
+      · rw [List.cons_append, popAux_exists_held h, popAux_exists_held h, hexAfter_exists_held h, ih]
+        simp [hexpAfter]
+    | expunge id =>
+      rw [List.cons_append, popAux_expunge, popAux_expunge, ih]
+      simp [hexpAfter, hexAfter]
     | fetch id fl op a b c =>
-      intro x hx
-      simp [popAux] at hx
-      rcases hx with rfl | hx
-      · rfl
-      · exact ih _ x hx
+      by_cases h : id ∈ hex
+      · rw [List.cons_append, popAux_fetch_held h, popAux_fetch_held h, ih]
+        simp [hexpAfter, hexAfter]
+      · rw [List.cons_append, popAux_fetch_popped h, popAux_fetch_popped h, ih]
+        simp [hexpAfter, hexAfter]
 
-theorem popAux_snd_expunges (skip : List MsgId) (l : List Responder) :
-    (popAux skip l).2.filter (·.isExpunge) = l.filter (·.isExpunge) := by
-  induction l generalizing skip with
+theorem hexpAfter_append (hexp : List MsgId) (l1 l2 : List Responder) :
+    hexpAfter hexp (l1 ++ l2) = hexpAfter (hexpAfter hexp l1) l2 := by
+  induction l1 generalizing hexp with
+  | nil => rfl
+  | cons r rs ih => cases r <;> simp [hexpAfter, ih]
+
+theorem hexAfter_append (hexp hex : List MsgId) (l1 l2 : List Responder) :
+    hexAfter hexp hex (l1 ++ l2) = hexAfter (hexpAfter hexp l1) (hexAfter hexp hex l1) l2 := by
+  induction l1 generalizing hexp hex with
+  | nil => rfl
+  | cons r rs ih =>
+    cases r with
+    | «exists» id uid fl t o =>
+      cases h : holdsExists hexp hex id
+      · rw [List.cons_append, hexAfter_exists_popped h, hexAfter_exists_popped h, ih]; simp [hexpAfter]
+      · rw [List.cons_append, hexAfter_exists_held h, hexAfter_exists_held h, ih]; simp [hexpAfter]
+    | expunge id => simp [hexpAfter, hexAfter, ih]
+    | fetch id fl op a b c => simp [hexpAfter, hexAfter, ih]
+
+/-- `heldExpunge` only grows -/
+theorem hexpAfter_mem (hexp : List MsgId) (l : List Responder) (id : MsgId) (h : id ∈ hexp) :
+    id ∈ hexpAfter hexp l := by
+  induction l generalizing hexp with
+  | nil => exact h
+  | cons r rs ih =>
+    cases r with
+    | expunge id' => exact ih _ (List.mem_cons_of_mem _ h)
+    | «exists» id' uid fl t o => exact ih _ h
+    | fetch id' fl op a b c => exact ih _ h
+
+/-- `heldExists` only grows -/
+theorem hexAfter_mem (hexp hex : List MsgId) (l : List Responder) (id : MsgId) (h : id ∈ hex) :
+    id ∈ hexAfter hexp hex l := by
+  induction l generalizing hexp hex with
+  | nil => exact h
+  | cons r rs ih =>
+    cases r with
+    | expunge id' => exact ih _ _ h
+    | «exists» id' uid fl t o =>
+      cases hh : holdsExists hexp hex id'
+      · rw [hexAfter_exists_popped hh]; exact ih _ _ h
+      · rw [hexAfter_exists_held hh]; exact ih _ _ (List.mem_cons_of_mem _ h)
+    | fetch id' fl op a b c => exact ih _ _ h
+
+theorem popAux_fst_no_expunge (hexp hex : List MsgId) (l : List Responder) :
+    ∀ r ∈ (popAux hexp hex l).1, r.isExpunge = false := by
+  induction l generalizing hexp hex with
+  | nil => simp [popAux]
+  | cons r rs ih =>
+    intro x hx
+    cases r with
+    | «exists» id uid fl t o =>
+      cases h : holdsExists hexp hex id
+      · rw [popAux_exists_popped h] at hx
+        rcases List.mem_cons.mp hx with rfl | hx
+        · rfl
+        · exact ih _ _ x hx
+      · rw [popAux_exists_held h] at hx; exact ih _ _ x hx
+    | expunge id => rw [popAux_expunge] at hx; exact ih _ _ x hx
+    | fetch id fl op a b c =>
+      by_cases h : id ∈ hex
+      · rw [popAux_fetch_held h] at hx; exact ih _ _ x hx
+      · rw [popAux_fetch_popped h] at hx
+        rcases List.mem_cons.mp hx with rfl | hx
+        · rfl
+        · exact ih _ _ x hx
+
+theorem popAux_snd_expunges (hexp hex : List MsgId) (l : List Responder) :
+    (popAux hexp hex l).2.filter (·.isExpunge) = l.filter (·.isExpunge) := by
+  induction l generalizing hexp hex with
   | nil => simp [popAux]
   | cons r rs ih =>
     cases r with
     | «exists» id uid fl t o =>
-      by_cases h : id ∈ skip
-      · simp [popAux, h, ih]
-      · simp [popAux, h, ih]
-    | expunge id => simp [popAux, List.filter_cons, ih]
-    | fetch id fl op a b c => simp [popAux, ih]
+      cases h : holdsExists hexp hex id
+      · rw [popAux_exists_popped h]; simp [ih]
+      · rw [popAux_exists_held h]; simp [ih]
+    | expunge id => rw [popAux_expunge]; simp [List.filter_cons, ih]
+    | fetch id fl op a b c =>
+      by_cases h : id ∈ hex
+      · rw [popAux_fetch_held h]; simp [ih]
+      · rw [popAux_fetch_popped h]; simp [ih]
 
-theorem popAux_fst_sublist (skip : List MsgId) (l : List Responder) : (popAux skip l).1.Sublist l := by
-  induction l generalizing skip with
+/-- the popped responders are a subsequence of the queue, verbatim -/
+theorem popAux_fst_sublist (hexp hex : List MsgId) (l : List Responder) : (popAux hexp hex l).1.Sublist l := by
+  induction l generalizing hexp hex with
   | nil => simp [popAux]
   | cons r rs ih =>
     cases r with
     | «exists» id uid fl t o =>
-      by_cases h : id ∈ skip
-      · simpa [popAux, h] using (ih _).cons _
-      · simp [popAux, h, ih]
-    | expunge id => simpa [popAux] using (ih _).cons _
-    | fetch id fl op a b c => simp [popAux, ih]
+      cases h : holdsExists hexp hex id
+      · rw [popAux_exists_popped h]; exact (ih _ _).cons_cons _
+      · rw [popAux_exists_held h]; exact (ih _ _).cons _
+    | expunge id => rw [popAux_expunge]; exact (ih _ _).cons _
+    | fetch id fl op a b c =>
+      by_cases h : id ∈ hex
+      · rw [popAux_fetch_held h]; exact (ih _ _).cons _
+      · rw [popAux_fetch_popped h]; exact (ih _ _).cons_cons _
 
-theorem popAux_snd_sublist (skip : List MsgId) (l : List Responder) : (popAux skip l).2.Sublist l := by
-  induction l generalizing skip with
+/-- the retained responders are a subsequence of the queue, a retained fetch un-silenced -/
+theorem popAux_snd_sublist (hexp hex : List MsgId) (l : List Responder) :
+    (popAux hexp hex l).2.Sublist (l.map Responder.unsilent) := by
+  induction l generalizing hexp hex with
   | nil => simp [popAux]
   | cons r rs ih =>
     cases r with
     | «exists» id uid fl t o =>
-      by_cases h : id ∈ skip
-      · simp [popAux, h, ih]
-      · simpa [popAux, h] using (ih skip).cons _
-    | expunge id => simp [popAux, ih]
-    | fetch id fl op a b c => simpa [popAux] using (ih skip).cons _
+      cases h : holdsExists hexp hex id
+      · rw [popAux_exists_popped h]; exact (ih _ _).cons _
+      · rw [popAux_exists_held h]; exact (ih _ _).cons_cons _
+    | expunge id => rw [popAux_expunge]; exact (ih _ _).cons_cons _
+    | fetch id fl op a b c =>
+      by_cases h : id ∈ hex
+      · rw [popAux_fetch_held h]; exact (ih _ _).cons_cons _
+      · rw [popAux_fetch_popped h]; exact (ih _ _).cons _
 
-/-- an id stays in the skip set while no `exists` for it is walked over -/
-theorem skipAfter_mem (skip : List MsgId) (l : List Responder) (id : MsgId)
-    (hid : id ∈ skip) (hl : ∀ r ∈ l, ¬ (r.isExists = true ∧ r.msgId = id)) :
-    id ∈ skipAfter skip l := by
-  induction l generalizing skip with
-  | nil => simpa [skipAfter]
+/-- every retained responder is a queued one, possibly un-silenced -/
+theorem popAux_snd_mem (hexp hex : List MsgId) (l : List Responder) {r : Responder}
+    (h : r ∈ (popAux hexp hex l).2) : ∃ r0 ∈ l, r = r0.unsilent := by
+  have := (popAux_snd_sublist hexp hex l).subset h
+  obtain ⟨r0, h0, rfl⟩ := List.mem_map.mp this
+  exact ⟨r0, h0, rfl⟩
+
+/-- once an EXISTS is held back, no later EXISTS is popped -/
+theorem popAux_fst_no_exists (hexp hex : List MsgId) (l : List Responder) (hne : hex ≠ []) :
+    ∀ r ∈ (popAux hexp hex l).1, r.isExists = false := by
+  induction l generalizing hexp hex with
+  | nil => simp [popAux]
   | cons r rs ih =>
-    have hrs : ∀ r ∈ rs, ¬ (r.isExists = true ∧ r.msgId = id) := fun x hx => hl x (List.mem_cons_of_mem _ hx)
+    intro x hx
+    cases r with
+    | «exists» id uid fl t o =>
+      rw [popAux_exists_held (holdsExists_of_ne_nil hne id)] at hx
+      exact ih _ _ (List.cons_ne_nil _ _) x hx
+    | expunge id => rw [popAux_expunge] at hx; exact ih _ _ hne x hx
+    | fetch id fl op a b c =>
+      by_cases h : id ∈ hex
+      · rw [popAux_fetch_held h] at hx; exact ih _ _ hne x hx
+      · rw [popAux_fetch_popped h] at hx
+        rcases List.mem_cons.mp hx with rfl | hx
+        · rfl
+        · exact ih _ _ hne x hx
+
+/-- once an EXISTS is held back, every later EXISTS is retained -/
+theorem popAux_snd_exists (hexp hex : List MsgId) (l : List Responder) (hne : hex ≠ []) :
+    ∀ r ∈ l, r.isExists = true → r ∈ (popAux hexp hex l).2 := by
+  induction l generalizing hexp hex with
+  | nil => simp
+  | cons r rs ih =>
+    intro x hx hxe
+    cases r with
+    | «exists» id uid fl t o =>
+      rw [popAux_exists_held (holdsExists_of_ne_nil hne id)]
+      rcases List.mem_cons.mp hx with rfl | hx
+      · exact List.mem_cons_self
+      · exact List.mem_cons_of_mem _ (ih _ _ (List.cons_ne_nil _ _) x hx hxe)
+    | expunge id =>
+      rw [popAux_expunge]
+      rcases List.mem_cons.mp hx with rfl | hx
+      · simp [Responder.isExists] at hxe
+      · exact List.mem_cons_of_mem _ (ih _ _ hne x hx hxe)
+    | fetch id fl op a b c =>
+      rcases List.mem_cons.mp hx with rfl | hx
+      · simp [Responder.isExists] at hxe
+      · by_cases h : id ∈ hex
+        · rw [popAux_fetch_held h]; exact List.mem_cons_of_mem _ (ih _ _ hne x hx hxe)
+        · rw [popAux_fetch_popped h]; exact ih _ _ hne x hx hxe
+
+/-- nothing is popped for a message whose EXISTS is held back -/
+theorem popAux_fst_not_held (hexp hex : List MsgId) (l : List Responder) :
+    ∀ r ∈ (popAux hexp hex l).1, r.msgId ∉ hex := by
+  induction l generalizing hexp hex with
+  | nil => simp [popAux]
+  | cons r rs ih =>
+    intro x hx
+    cases r with
+    | «exists» id uid fl t o =>
+      cases h : holdsExists hexp hex id
+      · rw [popAux_exists_popped h] at hx
+        rcases List.mem_cons.mp hx with rfl | hx
+        · rw [(holdsExists_false_iff.mp h).1]; simp
+        · exact ih _ _ x hx
+      · rw [popAux_exists_held h] at hx
+        exact fun hm => ih _ _ x hx (List.mem_cons_of_mem _ hm)
+    | expunge id => rw [popAux_expunge] at hx; exact ih _ _ x hx
+    | fetch id fl op a b c =>
+      by_cases h : id ∈ hex
+      · rw [popAux_fetch_held h] at hx; exact ih _ _ x hx
+      · rw [popAux_fetch_popped h] at hx
+        rcases List.mem_cons.mp hx with rfl | hx
+        · exact h
+        · exact ih _ _ x hx
+
+/-- a responder that is neither EXPUNGE nor EXISTS, of a message whose EXISTS is held back, is
+    retained (un-silenced) -/
+theorem popAux_snd_fetch (hexp hex : List MsgId) (l : List Responder) (id : MsgId) (hid : id ∈ hex) :
+    ∀ r ∈ l, r.isExists = false → r.isExpunge = false → r.msgId = id → r.unsilent ∈ (popAux hexp hex l).2 := by
+  induction l generalizing hexp hex with
+  | nil => simp
+  | cons r rs ih =>
+    intro x hx hxe hxd hxi
     cases r with
     | «exists» id' uid fl t o =>
-      have hne : id' ≠ id := by
-        intro h
-        exact hl (.exists id' uid fl t o) (List.mem_cons_self) ⟨rfl, h⟩
-      by_cases h : id' ∈ skip
-      · have h' : skip.contains id' = true := by simpa using h
-        simp only [skipAfter, h', if_true]
-        apply ih _ _ hrs
-        simp [List.mem_filter, hid]
-        exact fun h => hne h.symm
-      · have h' : ¬ skip.contains id' = true := by simpa using h
-        simp only [skipAfter, h']
-        exact ih _ hid hrs
+      rcases List.mem_cons.mp hx with rfl | hx
+      · simp [Responder.isExists] at hxe
+      · cases hh : holdsExists hexp hex id'
+        · rw [popAux_exists_popped hh]; exact ih _ _ hid x hx hxe hxd hxi
+        · rw [popAux_exists_held hh]
+          exact List.mem_cons_of_mem _ (ih _ _ (List.mem_cons_of_mem _ hid) x hx hxe hxd hxi)
     | expunge id' =>
-      simp only [skipAfter]
-      apply ih _ _ hrs
-      split
-      · exact hid
-      · exact List.mem_cons_of_mem _ hid
+      rw [popAux_expunge]
+      rcases List.mem_cons.mp hx with rfl | hx
+      · simp at hxd
+      · exact List.mem_cons_of_mem _ (ih _ _ hid x hx hxe hxd hxi)
     | fetch id' fl op a b c =>
-      simp only [skipAfter]
-      exact ih _ hid hrs
+      rcases List.mem_cons.mp hx with rfl | hx
+      · simp only [Responder.msgId] at hxi
+        subst hxi
+        rw [popAux_fetch_held hid]
+        exact List.mem_cons_self
+      · by_cases h : id' ∈ hex
+        · rw [popAux_fetch_held h]; exact List.mem_cons_of_mem _ (ih _ _ hid x hx hxe hxd hxi)
+        · rw [popAux_fetch_popped h]; exact ih _ _ hid x hx hxe hxd hxi
 
 end Gluon
